@@ -133,7 +133,12 @@ Qed.
 Definition ref_ok (d : dowhile) (cs : N) (r : ref) : Prop :=
   match r with
   | RBind b f m => lookup b (d_binds d) <> None
-  | RComp st n f m => in_loop_ids d (opt_stage st cs + d_stage d, n) = true /\ is_loop_meth m = false
+  | RComp st n f m =>
+      (* an internal reference to a looped component, identified by its STAGE AND NAME ... *)
+      (in_loop_ids d (opt_stage st cs + d_stage d, n) = true /\ is_loop_meth m = false) \/
+      (* ... or a direct reference to a component outside the loop (which may well have the NAME of a looped
+         component of another stage) *)
+      (in_loop_ids d (opt_stage st cs + d_stage d, n) = false /\ occurs "#" n = false)
   end.
 
 Record wf_doc (d : dowhile) : Prop := {
@@ -281,7 +286,9 @@ Definition wire (i cs : N) (r : ref) : aref :=
           | None => mk_aref (cs + d_stage d) (iname i b) f m
           end
       end
-  | RComp st n f m => mk_aref (opt_stage st cs + d_stage d) (iname i n) f m
+  | RComp st n f m =>
+      let s := opt_stage st cs + d_stage d in
+      mk_aref s (if in_loop_ids d (s, n) then iname i n else n) f m
   end.
 
 Lemma not_loop_id_iname st j n : in_loop_ids d (st, iname j n) = false.
@@ -324,7 +331,9 @@ Proof.
       destruct (lookup b (d_binds d)) as [v|] eqn:Ev; [|congruence].
       unfold looped_rename. cbn. rewrite (wf_binds_outside d WF b v Ev).
       destruct (lookup b (d_loopb d)); reflexivity.
-  - destruct Hok as [Hin Hm]. unfold looped_rename. cbn. rewrite Hin, Hm. reflexivity.
+  - destruct Hok as [[Hin Hm]|[Hout _]]; unfold looped_rename; cbn.
+    + rewrite Hin, Hm. reflexivity.
+    + rewrite Hout. reflexivity.
 Qed.
 
 Lemma wiring k i c : i <= N.of_nat k -> In c (d_comps d) ->
@@ -568,7 +577,7 @@ Proof.
   - cbn. repeat constructor. intros [].
   - intros b v H. cbn in H. destruct (String.eqb b "number"); [|discriminate]. inversion H. reflexivity.
   - intros c r Hc Hr. cbn in Hc. repeat destruct Hc as [<-|Hc]; try contradiction;
-      cbn in Hr; repeat destruct Hr as [<-|Hr]; try contradiction; cbn; try discriminate; split; reflexivity.
+      cbn in Hr; repeat destruct Hr as [<-|Hr]; try contradiction; cbn; try discriminate; left; split; reflexivity.
 Qed.
 
 (* ------------------------------------------------------------------ further concrete well-formed documents *)
@@ -585,7 +594,8 @@ Ltac solve_wf :=
   | intros b v H; cbn in H;
     repeat match type of H with (if ?e then _ else _) = _ => destruct e end; try discriminate; inversion H; reflexivity
   | intros c r Hc Hr; cbn in Hc; repeat destruct Hc as [<-|Hc]; try contradiction;
-    cbn in Hr; repeat destruct Hr as [<-|Hr]; try contradiction; cbn; try discriminate; split; reflexivity ].
+    cbn in Hr; repeat destruct Hr as [<-|Hr]; try contradiction; cbn; try discriminate;
+    first [ left; split; reflexivity | right; split; reflexivity ] ].
 
 (* two looped components with the same name in different stages (witness of F5b): stage0.x feeds stage1.x, the
    loop carries stage1.x back into stage0.x, the condition is produced by stage1.x *)
@@ -613,4 +623,24 @@ Definition ex_doc3 : dowhile :=
 Definition ex_out3 : list ocomp := [mk_ocomp "src0" 0 []].
 
 Lemma ex_doc3_wf : wf_doc ex_doc3.
+Proof. solve_wf. Qed.
+
+(* name clashes between looped components and components OUTSIDE the loop (component ids are (stage, name) pairs):
+   "work" is looped (stage 0 of the document = stage 1 of the workflow), stage0.work and stage2.work are plain
+   components outside the loop.  The looped work reads stage0.work through the binding "base" (not loop-carried) and
+   stage1.mid directly; the looped stop (stage 1 of the document) reads the looped work (stage0.work of the DOCUMENT)
+   and, directly, the outside stage2.work (stage1.work of the document). *)
+Definition ex_doc4 : dowhile :=
+  mk_dw 1
+    [mk_comp "work" 0 [RBind "b0" "" "output"; RBind "base" "" "ref"; RComp None "mid" "" "ref"];
+     mk_comp "stop" 1 [RComp (Some 0) "work" "" "output"; RComp (Some 1) "work" "f" "ref"]]
+    [("b0", mk_aref 0 "src0" "" "output"); ("base", mk_aref 0 "work" "" "ref")]
+    [("b0", mk_lb (Some 0) "work" "" "output")]
+    (mk_lb (Some 1) "stop" "f" "output").
+Definition ex_out4 : list ocomp :=
+  [mk_ocomp "src0" 0 []; mk_ocomp "work" 0 []; mk_ocomp "mid" 1 []; mk_ocomp "work" 2 [];
+   mk_ocomp "stop" 3 [mk_aref 1 "work" "" "ref"; mk_aref 0 "work" "" "ref"; mk_aref 2 "work" "" "output";
+                      mk_aref 1 "work" "" "loopref"]].
+
+Lemma ex_doc4_wf : wf_doc ex_doc4.
 Proof. solve_wf. Qed.
